@@ -786,7 +786,8 @@ def split_tuple_type(t):
 
 
 def load(relpath, **kw) -> Translator:
-    p = Path('/repo') / relpath
+    import os
+    p = Path(os.environ.get('VERIF_REPO', '/repo')) / relpath
     try:
         src = p.read_text()
     except Exception as e:
